@@ -595,13 +595,21 @@ def env_scenarios(rng, count):
     transactions of 2-3 clients.  Evaluated with the model-free monitors only (plus `own_reply_problems`)."""
     out = []
     for t in range(count):
-        kind = ["late_healthcheck", "reset_idle", "both"][t % 3]
+        kind = ["late_healthcheck", "reset_idle", "both", "prewarm_big"][t % 4]
         ps = rng.choice([1, 1, 2])
         ncl = rng.choice([2, 3])
         general = {"connect_timeout": 1200, "healthcheck_timeout": 250}
         if kind != "reset_idle" or rng.random() < 0.5:
             general["healthcheck_delay"] = 0          # every checkout runs the `;` health check first
-        toml = W.make_toml(general=general, pools={"db": {
+        plugins = None
+        if kind == "prewarm_big" or rng.random() < 0.25:
+            # the statements pgcat runs itself on a NEW server connection (prewarmer plugin) have replies of their own: one
+            # that does not fit into a single Server::recv() buffer (8196 bytes), notices, several statements, an error
+            pre = [rng.choice(["SELECT 1 /*mock: rows=40, size=300*/ /*pw*/", "SELECT 1 /*mock: rows=3, size=4000*/ /*pw*/",
+                               "SELECT 1 /*mock: rows=1, size=20*/ /*pw*/", "SELECT 1 /*mock: rows=200, size=60*/ /*pw*/"])
+                   for _ in range(rng.choice([1, 1, 2]))]
+            plugins = "[plugins]\n[plugins.prewarmer]\nenabled = true\nqueries = [%s]\n" % ", ".join('"%s"' % x for x in pre)
+        toml = W.make_toml(general=general, plugins=plugins, pools={"db": {
             "opts": {"pool_mode": "transaction"}, "users": [{"pool_size": ps, "statement_timeout": 3000}],
             "shards": [{"servers": [["b0", "primary"]]}]}})
         steps = []
@@ -620,7 +628,7 @@ def env_scenarios(rng, count):
         for c in range(1, ncl + 1):
             plain(c)
         for rnd in range(rng.randint(2, 4)):
-            f = kind if kind != "both" else rng.choice(["late_healthcheck", "reset_idle"])
+            f = kind if kind not in ("both", "prewarm_big") else rng.choice(["late_healthcheck", "reset_idle", "reset_idle"])
             if f == "late_healthcheck" and "healthcheck_delay" in general:
                 steps.append({"op": "backend", "b": "b0", "slow_exact": {"sql": ";", "ms": rng.choice([450, 700]), "count": rng.choice([1, 1, 2])}})
             else:
